@@ -207,6 +207,10 @@ func init() {
 			ctx.LabelIf(c.Note != "", "doc:"+c.Note)
 			ctx.LabelIf(len(c.Doc) > 4200, "doc>4200B")
 
+			if findingOpen(s75) && !ctx.Replaying && hugeHexExponent(c.Doc) {
+				ctx.Stats.Exclude(s75)
+				return nil
+			}
 			// ---- reference: the same bytes from memory
 			var mres interface{}
 			var merr error
